@@ -407,6 +407,11 @@ func reifyValue(
 		return v, nil
 	}
 
+	if baseType == tRegexp {
+		// a struct, but unpacked from a string like a primitive
+		return reifyPrimitive(opts, val, t, baseType)
+	}
+
 	if baseType.Kind() == reflect.Struct {
 		sub, err := val.toConfig(opts.opts)
 		if err != nil {
@@ -522,6 +527,10 @@ func reifyMergeValue(
 		return old, reifyMap(opts.opts, old, sub, opts.validators)
 
 	case reflect.Struct:
+		if baseType == tRegexp {
+			// a struct, but unpacked from a string like a primitive
+			break
+		}
 		sub, err := val.toConfig(opts.opts)
 		if err != nil {
 			return reflect.Value{}, raiseExpectedObject(opts.opts, val)
